@@ -67,7 +67,20 @@ for _i in range(6):
 for _i in range(1, 81):
     DB[BASE + (55, 1, _i)] = ("int", _i)  # a long column: 80 instances
 
-OPKINDS = ("get", "multiget", "getnext", "set", "walk", "bulkwalk", "table", "walk9")
+OPKINDS = ("get", "multiget", "getnext", "set", "walk", "bulkwalk", "table", "walk9", "bulkget", "multiwalk2")
+
+# argument lists that belong to the caller and are passed to SEVERAL concurrent
+# operations of one execution (a poller keeps its OID lists); rebuilt per execution
+SHARED = {}
+
+
+def shared_lists():
+    if not SHARED:
+        SHARED["scalars"] = [OID(BASE + (1, 1, 0))]
+        SHARED["repeaters"] = [OID(BASE + (7, 1, 1))]
+        SHARED["roots"] = [OID(BASE + (7, 1, 2)), OID(BASE + (9,))]
+    return SHARED
+
 
 
 async def do_op(client, kind, slot):
@@ -88,6 +101,12 @@ async def do_op(client, kind, slot):
         return [(rig.oid_t(vb.oid), rig.to_tuple(vb.value)) async for vb in client.walk(OID(BASE + (55,)))]
     if kind == "bulkwalk":
         return [(rig.oid_t(vb.oid), rig.to_tuple(vb.value)) async for vb in client.bulkwalk([OID(BASE + (7,))], bulk_size=4)]
+    if kind == "bulkget":
+        sh = shared_lists()
+        r = await client.bulkget(sh["scalars"], sh["repeaters"], max_list_size=3)
+        return ([(rig.oid_t(k), rig.to_tuple(v)) for k, v in r.scalars.items()], [(rig.oid_t(k), rig.to_tuple(v)) for k, v in r.listing.items()])
+    if kind == "multiwalk2":
+        return [(rig.oid_t(vb.oid), rig.to_tuple(vb.value)) async for vb in client.multiwalk(shared_lists()["roots"])]
     if kind == "table":
         rows = await client.table(OID(BASE + (7, 1)))
         return sorted([{k: (v if k == "0" else rig.to_tuple(v)) for k, v in r.items()} for r in rows], key=lambda r: r["0"])
@@ -229,6 +248,7 @@ async def run_schedule(mode, ops, prefix, rng, events):
 
 def execute(mode, ops, prefix, rng):
     events = []
+    SHARED.clear()
     rig.env.CLOCK.freeze(1_700_000_000.0)
     if CLOCK_MODE[0] == "stepping":
         # every read advances: concurrent operations carry DIFFERENT request ids
@@ -312,7 +332,7 @@ def judge(R, case, mode, ops, results, order, agent, clients, events):
     return True
 
 
-def explore(R, mode, ops, max_enum, sample_n, seed, clock="stepping"):
+def explore(R, mode, ops, max_enum, sample_n, seed, clock="stepping", frac=1.0):
     CLOCK_MODE[0] = clock
     case = {"mode": mode, "ops": list(ops), "clock": clock, "cancel": list(CANCEL[0]) if CANCEL[0] else None, "slow": SLOW[0]}
     stack = [[]]
@@ -323,7 +343,7 @@ def explore(R, mode, ops, max_enum, sample_n, seed, clock="stepping"):
         if runs >= max_enum:
             complete = False
             break
-        if not R.time_left():
+        if not R.time_left(frac):
             complete = False
             break
         prefix = stack.pop()
@@ -344,7 +364,7 @@ def explore(R, mode, ops, max_enum, sample_n, seed, clock="stepping"):
         R.mon["sets_sampled"] += 1
         rng = random.Random(seed)
         for _ in range(sample_n):
-            if not R.time_left():
+            if not R.time_left(frac):
                 break
             results, trace, order, agent, clients, events = execute(mode, ops, [], rng)
             R.case(("c14", mode, clock, tuple(ops), tuple(order)), len(order) >= 2)
@@ -372,20 +392,24 @@ def run(R):
         ("v3-two-engines", ("get", "getnext", "set", "multiget")),
         ("v3-primed-reboot", ("get", "set")),
         ("v3-primed-reboot", ("get", "getnext", "set")),
+        ("v2c", ("bulkget", "bulkget", "get")),
+        ("v3-primed", ("bulkget", "multiwalk2", "bulkget")),
+        ("v2c", ("multiwalk2", "multiwalk2")),
     ]
     k = 0
-    for mode, ops in fixed:
-        k += 1
-        if not R.mine(k):
-            continue
-        explore(R, mode, ops, MAX_ENUM[R.tier], 30, k, clock="stepping")
-        k += 1
-        if R.mine(k):
-            explore(R, mode, ops, MAX_ENUM[R.tier], 30, k, clock="frozen")
-        if len(ops) >= 3:
+    # the small deterministic blocks first: a time cap must never starve them
+    # a slow operation stays unanswered while a long walk (80 requests) goes by
+    for mode in ("v2c", "v3-primed"):
+        for clock in ("stepping", "frozen"):
             k += 1
-            if R.mine(k):
-                explore(R, mode, ops, MAX_ENUM[R.tier] // 2, 20, k, clock="ticking")
+            if not R.mine(k):
+                continue
+            SLOW[0] = 0
+            try:
+                explore(R, mode, ("get", "longwalk"), 1, 0, k, clock=clock)
+                R.mon["slow_get_during_long_walk"] += 1
+            finally:
+                SLOW[0] = None
     for mode, ops in (("v3-primed", ("get", "get", "get", "set")), ("v3-primed", ("get", "getnext", "get")), ("v2c", ("get", "get", "get", "getnext")), ("v3-fresh", ("get", "get", "get", "get"))):
         k += 1
         if R.mine(k):
@@ -403,18 +427,19 @@ def run(R):
                     explore(R, mode, ops, 40, 6, k, clock=("stepping", "frozen")[k % 2])
                 finally:
                     CANCEL[0] = None
-    # a slow operation stays unanswered while a long walk (80 requests) goes by
-    for mode in ("v2c", "v3-primed"):
-        for clock in ("stepping", "frozen"):
+    # systematic enumeration of the fixed sets (at most 60% of the time cap)
+    for mode, ops in fixed:
+        k += 1
+        if not R.mine(k):
+            continue
+        explore(R, mode, ops, MAX_ENUM[R.tier], 30, k, clock="stepping", frac=0.6)
+        k += 1
+        if R.mine(k):
+            explore(R, mode, ops, MAX_ENUM[R.tier], 30, k, clock="frozen", frac=0.6)
+        if len(ops) >= 3:
             k += 1
-            if not R.mine(k):
-                continue
-            SLOW[0] = 0
-            try:
-                explore(R, mode, ("get", "longwalk"), 1, 0, k, clock=clock)
-                R.mon["slow_get_during_long_walk"] += 1
-            finally:
-                SLOW[0] = None
+            if R.mine(k):
+                explore(R, mode, ops, MAX_ENUM[R.tier] // 2, 20, k, clock="ticking", frac=0.6)
     for i in range(n):
         k += 1
         if not R.mine(k):
